@@ -167,6 +167,16 @@ const std::vector<Kind> &kinds()
                                m.parse(el);
                            },
                            [](const QString &, quint64 seed) { return QStringList { stampFor(true, seed).toString(QStringLiteral("yyyyMMddThh:mm:ss")) }; } });
+        // origin class `parsed`: the message comes from XML with the default element AND a language variant of it
+        const auto langVariant = [](const QString &name, const QString &slot, const QString &tag) {
+            return tokKind(name, slot, [tag](Msg &m, const QString &T) {
+                QDomDocument keep;
+                auto el = parseMessageXml(QStringLiteral("<message type='chat'><%1>%2-default</%1><%1 xml:lang='de'>%2</%1></message>").arg(tag, T), keep);
+                m.parse(el);
+            });
+        };
+        k.push_back(langVariant("bodyLang", "body", "body"));
+        k.push_back(langVariant("subjectLang", "subject", "subject"));
         k.push_back(tokKind("to", "to", [](Msg &m, const QString &T) { m.setTo(T + "@example.org/r"); }));
         k.push_back(tokKind("from", "from", [](Msg &m, const QString &T) { m.setFrom(T + "@example.org/r"); }));
         k.push_back(tokKind("id", "id", [](Msg &m, const QString &T) { m.setId(T); }));
@@ -606,7 +616,13 @@ QString classify(const QDomElement &el, bool publicPart)
         { "encrypted", "urn:qxv:e2ee:0", "e2eePayload" },  // the stub extension's payload (client path)
     };
     if (tag == "body" && ns == "jabber:client") {
-        return publicPart ? QStringLiteral("fallbackBody") : QStringLiteral("body");
+        if (publicPart) {
+            return QStringLiteral("fallbackBody");  // by definition; its text is judged by the raw-substring search
+        }
+        return el.text().contains("qxv-bodyLang-") ? QStringLiteral("bodyLang") : QStringLiteral("body");
+    }
+    if (tag == "subject" && ns == "jabber:client" && el.text().contains("qxv-subjectLang-")) {
+        return QStringLiteral("subjectLang");
     }
     for (const auto &r : rows) {
         if (tag == QLatin1String(r.tag) && ns == QLatin1String(r.ns)) {
